@@ -1,5 +1,5 @@
 // C15: DREAM sampling is memory-safe, stays in the domain and keeps consistent books.
-// args: chains dims burnup collect form(0 reg,1 log) update(0 none,1 uniform,2 gaussian,3 user) split(0 / c1: second run after the first c1 collected iterations) [reseed: 0 none, 1 setState(vector), 2 setState(function) between the two runs] [iface: 0 C++ templates, 1 the C interface tsgDreamSample()]
+// args: chains dims burnup collect form(0 reg,1 log) update(0 none,1 uniform,2 gaussian,3 user) split(0 / c1: second run after the first c1 collected iterations) [reseed: 0 none, 1 setState(vector), 2 setState(function) between the two runs] [iface: 0 C++ templates, 1 the C interface tsgDreamSample()] [twice: 1 = a second, un-split experiment with the same symbolic stream follows in the same process and must give the same result]
 #include "TasmanianDREAM.hpp"
 #include "fpsym.h"
 #include <map>
@@ -51,7 +51,7 @@ void World::runC(int burn, int collect, TasmanianDREAM &state){
 }
 
 int main(int argc, char **argv){
-  int C = atoi(argv[1]), D = atoi(argv[2]), burn = atoi(argv[3]), collect = atoi(argv[4]), form = atoi(argv[5]), update = atoi(argv[6]), split = atoi(argv[7]); int reseed = argc > 8 ? atoi(argv[8]) : 0; int iface = argc > 9 ? atoi(argv[9]) : 0;
+  int C = atoi(argv[1]), D = atoi(argv[2]), burn = atoi(argv[3]), collect = atoi(argv[4]), form = atoi(argv[5]), update = atoi(argv[6]), split = atoi(argv[7]); int reseed = argc > 8 ? atoi(argv[8]) : 0; int iface = argc > 9 ? atoi(argv[9]) : 0; int twice = argc > 10 ? atoi(argv[10]) : 0;
   World w; w.iface = iface; w.C = C; w.D = D; w.form = form; w.update = update;
   std::vector<double> init(C * D); for (int i=0;i<C*D;i++) init[i] = fpsym_symbolic(-0.6 + 0.37 * i, 10 + i, -1.0, 1.0);
   TasmanianDREAM state(C, D); state.setState(init);
@@ -144,6 +144,18 @@ int main(int argc, char **argv){
   if (parse_ok) for (int i=0;i<C;i++) for (int d=0;d<D;d++) fpsym_ident(fin[i * D + d], cur[i][d], "final chain state follows the Metropolis rule");
   // every recorded sample satisfied the domain test (or is the initial state)
   // (cur[i] is always the initial point or a proposal with a true verdict: follows from the ident obligations above and valid[i])
+  if (twice && !reseed){
+    // the result depends only on (state, random stream, parameters): a second experiment in the same process, fed the same symbols (same ids in the same
+    // order) in ONE run of the combined length, ends in the same state with the same history - nothing may leak from the first experiment
+    World w2; w2.iface = iface; w2.C = C; w2.D = D; w2.form = form; w2.update = update; w2.ids = w.ids;
+    TasmanianDREAM state2(C, D); state2.setState(init);
+    w2.run(burn, collect, state2);
+    std::vector<double> fin2 = state2.getChainState();
+    for (int i=0;i<C*D;i++) fpsym_ident(fin2[i], fin[i], "a second experiment with the same stream in the same process ends in the same chain state (and one run of the combined length equals the split runs)");
+    const std::vector<double> &ha = state.getHistory(), &hb = state2.getHistory();
+    fpsym_check(ha.size() == hb.size() && w2.n_rng == w.n_rng && w2.n_w == w.n_w, "a second experiment with the same stream records as many samples and consumes as many random numbers and weights");
+    if (ha.size() == hb.size()) for (size_t i=0;i<ha.size();i++) fpsym_ident(hb[i], ha[i], "a second experiment with the same stream records the same samples");
+  }
   if (total > 0) fpsym_nonconst(fin[0], "witness: chain state depends on the inputs");
   fpsym_finish(); return 0;
 }
